@@ -10,9 +10,9 @@ git -C "$WT" checkout -q --detach "$(git -C /repo rev-parse HEAD)" 2>/dev/null
 git -C "$WT" checkout -q -- . ; git -C "$WT" clean -qfd
 DEMO=$OUT/${L}_demo_test.go; PATCH=$OUT/$L.patch.diff
 cp "$DEMO" "$WT/$PKG/zz_demo_${L}_test.go"
-( cd "$WT" && go test -vet=off -count=1 -run "Test(C[0-9]+)?(Demo|Seed)(C[0-9]+)?_?${L}" "./$PKG/" ) >/tmp/seed-out/$ID.$L.base.log 2>&1; base=$?
+( cd "$WT" && go test -vet=off -count=1 -run "Test(C[0-9]+)?(Demo|Seed)?(C[0-9]+)?_?${L}(_|$|[A-Z])" "./$PKG/" ) >/tmp/seed-out/$ID.$L.base.log 2>&1; base=$?
 if ! git -C "$WT" apply "$PATCH"; then echo "PATCH DOES NOT APPLY on current HEAD"; exit 3; fi
-( cd "$WT" && go test -vet=off -count=1 -run "Test(C[0-9]+)?(Demo|Seed)(C[0-9]+)?_?${L}" "./$PKG/" ) >/tmp/seed-out/$ID.$L.mut.log 2>&1; mut=$?
+( cd "$WT" && go test -vet=off -count=1 -run "Test(C[0-9]+)?(Demo|Seed)?(C[0-9]+)?_?${L}(_|$|[A-Z])" "./$PKG/" ) >/tmp/seed-out/$ID.$L.mut.log 2>&1; mut=$?
 rm "$WT/$PKG/zz_demo_${L}_test.go"
 ( cd "$WT" && go build ./... && go test -vet=off -count=1 ./... ) >/tmp/seed-out/$ID.$L.suite.log 2>&1
 suite_fail=$(grep -E '^(FAIL\s+\S|--- FAIL)' /tmp/seed-out/$ID.$L.suite.log | grep -v -E 'pkg/cgroup|TestCgroupAll' | wc -l)
